@@ -32,7 +32,7 @@ def bases(ctx):
                 L1 = list(cfgl) + plants + [G.FIRE if small else G.NOFIRE]
                 L1.append("op 0 tempdir kk 7 9" if opk[0] == "tempdir" else G.op(0, opk[0], KEY, *opk[1:]))
                 # a fresh process afterwards: every kind of operation must work normally
-                L2 = list(cfgl) + ["snap", G.NOFIRE, G.op(0, "get", KEY), G.op(0, "touch", KEY), G.op(0, "put", ("k2", 1, 2), "W", 1),
+                L2 = list(cfgl) + ["snap", G.NOFIRE, G.op(0, "get", KEY), G.op(0, "touch", KEY), G.op(0, "ensure", KEY, "val:P:1"), G.op(0, "put", ("k2", 1, 2), "W", 1),
                                    G.op(0, "set", ("k5", 2, 3), "Q", 1), G.op(0, "ensure", ("k3", 5, 6), "val:P:1"), G.op(0, "get", ("k5", 2, 3)), "snap"]
                 # two hours later, another process writes with maintenance firing
                 L3 = list(cfgl) + [G.FIRE, G.op(0, "set", ("k4", 7, 9), "W", 1), G.op(0, "get", KEY), "snap", G.NOFIRE, G.op(0, "set", KEY, "Q", 1), G.op(0, "get", KEY), "snap"]
